@@ -23,6 +23,7 @@ import (
 	"bytes"
 	"context"
 	"crypto"
+	"crypto/ecdsa"
 	"encoding/json"
 	"errors"
 	"fmt"
@@ -377,6 +378,14 @@ func (n ambassador) isUpdate(transaction dag.Transaction) bool {
 func (n ambassador) findKeyByThumbprint(thumbPrint []byte, didDocumentAuthKeys []did.VerificationRelationship) (jwk.Key, error) {
 	var documentKey jwk.Key
 	for _, key := range didDocumentAuthKeys {
+		// skip (embedded) methods whose EC key is not a point on its curve (e.g. over-long coordinates): the JWK library does not expect those
+		if key.PublicKeyJwk != nil {
+			if publicKey, err := key.PublicKey(); err == nil {
+				if ecKey, ok := publicKey.(*ecdsa.PublicKey); ok && !ecKey.Curve.IsOnCurve(ecKey.X, ecKey.Y) {
+					continue
+				}
+			}
+		}
 		// Create thumbprint
 		keyAsJWK, err := key.JWK()
 		if err != nil {
